@@ -209,7 +209,11 @@ func checkC19(c C19Case) Verdict {
 			if d < depth {
 				inner = fmt.Sprintf("{call ns.d%d.t /}", d+1)
 			}
-			names = append(names, fmt.Sprintf("callee%d.soy", d))
+			calleeName := fmt.Sprintf("callee%d.soy", d)
+			if (c.Fault/8)%2 == 1 {
+				calleeName = c.Name // several files may share a name (it is "only used for error messages")
+			}
+			names = append(names, calleeName)
 			srcs = append(srcs, fmt.Sprintf("{namespace ns.d%d}\n\n\n/**\n * @param? x\n * @param? y */\n{template .t}\n{if $x}x{/if}{if $y}y{/if}\n%s\n{/template}\n", d, inner))
 		}
 		cb, err, pn := compileBundle(names, srcs, nil)
